@@ -284,12 +284,19 @@ def run(rep):
         jobs.append((independence_shard, ("layer", (lname,), T, Bs)))
     for cname in ADAPT_THRESH + ADAPT_CURR:
         jobs.append((adaptation_shard, (cname, 2 if quick else 3)))
+    # trainer clause: with a sum reduction the batched training step equals the sum of the per-sample steps - net update
+    # (all pairs of length-2 histories, four rule families) and part by part for a kernel whose sign changes across samples
+    import checks.c08_stdp as c08
+    import checks.c09_split as c09
+    for kind in ("stdp", "triplet", "mstdp", "mstdpet"):
+        jobs.append((c08.reduction_shard, (kind, "dense", (1, 1), 1.0, "hebbian", "sum")))
+    jobs.append((c09.kernel_parts_shard, (2 if quick else 3, 2.0)))
     tally = run_shards(jobs, seed=rep.seed)
     rep.tally.merge(tally)
     rep.assumptions += [
         "3-letter input alphabets; every pair of histories for B=2, every pair plus a permuted third sample for B=3",
         "float observables compared with tolerance 1e-6 (BLAS may order a 2-term dot product differently for different batch sizes), spikes bitwise",
-        "the trainer part (batch_reduction=sum: batched update == sum of per-sample updates) is explored by C08",
+        "the trainer clause re-uses the C08 reduction shard (sum reduction, all pairs of length-2 histories) and the C09 sign-changing-kernel parts shard",
     ]
     cov = {
         "evaluations": tally.counts.get("evaluations", 0),
